@@ -1600,10 +1600,10 @@ class ContactHandler(Messenger, dbus.service.Object):
         # send next segment (a zero-length bundle is one empty START+END segment)
         flg = 0
         ext_items = []
-        if 'private_extensions' in self._config.enable_test:
-            ext_items.append(messages.TransferExtendHeader(flags=messages.SessionExtendHeader.Flag.CRITICAL) / extend.TransferPrivateDummy())
         if self._tx_length == 0:
             flg |= messages.TransferSegment.Flag.START
+            if 'private_extensions' in self._config.enable_test:
+                ext_items.append(messages.TransferExtendHeader(flags=messages.SessionExtendHeader.Flag.CRITICAL) / extend.TransferPrivateDummy())
             ext_items.append(
                 messages.TransferExtendHeader() / extend.TransferTotalLength(total_length=self._tx_tmp.total_length)
             )
